@@ -28,3 +28,6 @@ open UtilModel
 #print axioms Promise.C11ch_obs_false
 #print axioms Promise.slot_mem_candidates
 #print axioms UtilModel.C11_accepted
+#print axioms UtilModel.complete_promise
+#print axioms UtilModel.reject_sound_promise
+#print axioms UtilModel.rejectH_sound
